@@ -259,7 +259,6 @@ def check_plain_export(raw, case, want, added, fails, obs):
         return None
     lit = indep.literal(pk[n][1])
     sigs = [indep.signature(b) for t, b in pk[n + 1:]]
-    sigraw = [bytes([0xc2]) for _ in sigs]
     for i in range(n):
         ops = read_ops(pk[i][1])
         s = sigs[n - 1 - i]
@@ -301,7 +300,8 @@ def check_plain_export(raw, case, want, added, fails, obs):
             ok = False
             obs.append('independent verifier error on signature %d: %s %s' % (i, type(ex).__name__, ex))
         if not ok:
-            obs.append('signature %d (type %d) does not verify over the literal data octets with the independent verifier' % (i, s['type']))
+            obs.append('signature (type %d) over a format %r literal does not verify over the literal data octets with the independent verifier [content %s]'
+                       % (s['type'], lit['format'], case['content']))
     return lit
 
 
@@ -350,7 +350,7 @@ def run_case(case):
             added = add_signatures(m, cfg)
             raw = bytes(m)
             check_plain_export(raw, case, want, added, fails, obs)
-            if 'input' in want and isinstance(want['input'], str) and m.message != want['input']:
+            if 'input' in want and isinstance(want['input'], str) and want['format'] != 'b' and m.message != want['input']:
                 obs.append('PGPMessage.new(%r..., format=%r).message returns %r...' % (want['input'][:12], case.get('format'), m.message[:12]))
             check_roundtrip(m, raw, case, cfg, fails, 'binary', raw)
             if case.get('armor', True):
@@ -379,7 +379,7 @@ def run_case(case):
             except AssertionError as ex:
                 fails.append('encrypted export is not derivable from the RFC 4880 11.3 grammar: %s (tags %r)' % (ex, tags))
             nesk = len(case['recips'])
-            if tags != [2] * len(outer) + sorted(tags[len(outer):-1]) + [18] or len(tags) != len(outer) + nesk + 1 or any(t not in (1, 3) for t in tags[len(outer):-1]):
+            if tags[:len(outer)] != [2] * len(outer) or tags[-1] != 18 or len(tags) != len(outer) + nesk + 1 or any(t not in (1, 3) for t in tags[len(outer):-1]):
                 fails.append('encrypted export has tags %r, expected %d signature(s), %d session-key packets, one tag 18' % (tags, len(outer), nesk))
             else:
                 body = b''.join(r for t, b, r in pk[len(outer):])
@@ -448,7 +448,7 @@ def component(tier='quick', seed=0, known=()):
             continue
         distinct.add(tuple(sorted((k, repr(v)) for k, v in case.items() if k not in ('id', 'tier'))))
         for o in obs:
-            key = o.split('(')[0][:60] if o.startswith('PGPMessage.new') else o[:60]
+            key = o.split('(')[0][:60] if o.startswith('PGPMessage.new') else o
             observations.setdefault(key, {'count': 0, 'what': o, 'first_case': {k: v for k, v in case.items() if k != 'tier'}})['count'] += 1
         if fails:
             total_bad += 1
@@ -478,7 +478,7 @@ def component(tier='quick', seed=0, known=()):
             'samples': [{k: v for k, v in results[i][0].items() if k != 'tier'} for i in (0, len(results) // 2, len(results) - 1)],
             'violations': violations[:6],
             'violations_total': total_bad,
-            'observations_outside_property': list(observations.values())[:6],
+            'observations_outside_property': list(observations.values())[:8],
             'known_hits': known_hits}
 
 
